@@ -40,6 +40,9 @@ type MergeCase struct {
 	Children []mChild       `json:"children"`
 	Script   []simrt.Op     `json:"script"`
 	RepeatID bool           `json:"repeat_ids"` // EVENT / COUNT ids may repeat while in flight
+	// Nest > 0: the first Nest children sit behind a merge handler of their own,
+	// which is the first child of the outer one (merges compose)
+	Nest int `json:"nest,omitempty"`
 	Sched    simrt.Schedule `json:"sched"`
 }
 
@@ -251,6 +254,9 @@ func (mergeEngine) Gen(t *rapid.T, tier string) any {
 		}
 		c.Children[li].Lag = rapid.SampledFrom([]int{20, 400}).Draw(t, "lag")
 	}
+	if wide == 0 && nch >= 3 && rapid.IntRange(0, 2).Draw(t, "nested") == 0 {
+		c.Nest = rapid.IntRange(2, nch-1).Draw(t, "nest")
+	}
 	c.Sched = GenSchedule(t, 1500)
 	return c
 }
@@ -444,6 +450,10 @@ func (mergeEngine) Exec(t *testing.T, cc any) *simrt.Result {
 			s := &mStub{sim: sim, idx: i, plan: &c.Children[i], evs: evs, byMsg: map[mocrelay.ServerMsg]*mRec{}, gotClose: map[string][]int64{}}
 			stubs = append(stubs, s)
 			hs = append(hs, s)
+		}
+		if c.Nest >= 2 && c.Nest < len(hs) {
+			st.Probe("nested_merge")
+			hs = append([]mocrelay.Handler{mocrelay.NewMergeHandler(hs[:c.Nest:c.Nest]...)}, hs[c.Nest:]...)
 		}
 		h := mocrelay.NewMergeHandler(hs...)
 		// make EVENT messages of the script share the case's event objects
